@@ -25,6 +25,7 @@ Reading guide
 import EPV.Lemmas.JsonXml
 import EPV.Lemmas.JsonDup
 import EPV.Lemmas.JsonXmlText
+import EPV.Lemmas.JsonEscapeOpt
 namespace EPV.C17
 open EPV.Json
 
@@ -223,6 +224,23 @@ theorem json_xml_history (rnd : Dec → Dec) (vs : List JValue) (h : ∀ v ∈ v
     ∀ v ∈ vs, ∃ t w, (jsonToXml v).bind (xmlToJson rnd) = .ok t ∧ parseJson t = some w ∧ SameValue v w :=
   fun v hv => json_xml_roundtrip rnd v (h v hv).1 (h v hv).2
 
+/-- Option `escape: true`, string level: the text json-to-xml writes for a JSON string (`escape_string`:
+backslashes doubled unless followed by `/`, two-character escapes, `\uXXXX` for non-XML characters; the
+`escaped` attribute iff the text contains a backslash) is accepted by xml-to-json's `check_escapes` and
+turned by `escape_json_string(·, escaped)` into a JSON string body that the RFC 8259 reader reads back to
+the original string — for EVERY string of Unicode scalar values (any backslashes, solidi, quotes, controls,
+non-XML characters). -/
+theorem escape_option_roundtrip (s : Str) (hs : ∀ c ∈ s, isScalar c = true) :
+    ∃ body, x2jStringEscaped (j2xEscapeString s) = .ok (34 :: (body ++ [34])) ∧ decodeBody body = some s :=
+  ⟨G s, escape_option_string s hs⟩
+
+/-- the inputs of the four repaired defects (tests on literals): `/`, backslash+`/`, `b\"`, `\uZZZZ` -/
+example : x2jStringEscaped (j2xEscapeString [47]) = .ok [34, 92, 47, 34] ∧
+    x2jStringEscaped (j2xEscapeString [92, 47]) = .ok [34, 92, 92, 92, 47, 34] ∧
+    x2jStringEscaped (j2xEscapeString [98, 92, 34]) = .ok [34, 98, 92, 92, 92, 34, 34] ∧
+    x2jStringEscaped (j2xEscapeString [92, 117, 90, 90, 90, 90]) = .ok [34, 92, 92, 117, 90, 90, 90, 90, 34] :=
+  ⟨by rfl, by rfl, by rfl, by rfl⟩
+
 /-! ### XML: escaping of character data and attribute values (fn:serialize ∘ fn:parse-xml) -/
 
 theorem no_cr_of_hasCR (s : Str) (h : hasCR s = false) : ∀ x ∈ s, x ≠ 13 := by
@@ -232,7 +250,7 @@ theorem no_cr_of_hasCR (s : Str) (h : hasCR s = false) : ∀ x ∈ s, x ≠ 13 :
   rw [h] at this
   exact absurd this (by simp)
 
-/-- PARTIAL (known finding F17n).  An XML reader (end-of-line normalization + references) reads the
+/-- ElementTree's own escaping (without the repository's CR handling; F17n before the fix).  An XML reader (end-of-line normalization + references) reads the
 ElementTree escaping of character data back to the text, for every text WITHOUT U+000D.
 Full statement `∀ s, xmlReadText (etEscapeText s) = some s` is false: `xml_text_cr_fails`. -/
 theorem xml_text_roundtrip_partial (s : Str) (h : hasCR s = false) : xmlReadText (etEscapeText s) = some s := by
@@ -250,6 +268,24 @@ theorem xml_text_roundtrip_partial (s : Str) (h : hasCR s = false) : xmlReadText
 /-- F17n: ElementTree writes U+000D raw in character data, the reader turns it into U+000A. -/
 theorem xml_text_cr_fails : hasCR [120, 13, 121] = true ∧
     xmlReadText (etEscapeText [120, 13, 121]) = some [120, 10, 121] := by decide
+
+/-- FULL STRENGTH for the repository's path (F17n fixed): fn:serialize marks U+000D in a copy, lets
+ElementTree escape the text and writes `&#13;` for the mark; an XML reader reads the result back to the
+text, for EVERY text and every private-use mark that does not occur in it. -/
+theorem xml_text_roundtrip (k : Nat) (s : Str) (hk : 0xE000 ≤ k) (hs : ∀ x ∈ s, x ≠ k) :
+    xmlReadText (repoEscapeText k s) = some s := by
+  unfold xmlReadText
+  rw [repoEscapeText_eq k s hk hs, normEol_noop]
+  · exact readChars_flatMap_full false lxTextChar s (fun c _ => charOK_lxText c)
+  · apply no13_flatMap
+    intro x _ c hc
+    unfold lxTextChar at hc
+    repeat (split at hc; · simp at hc; omega)
+    simp at hc; omega
+
+/-- the mark must not occur in the text (the code picks an unused one): otherwise that character is read back
+as U+000D (test on literals) -/
+example : xmlReadText (repoEscapeText 57344 [57344]) = some [13] := by decide
 
 /-- with lxml's escaping (U+000D written `&#13;`) the round trip holds for every text -/
 theorem xml_text_roundtrip_lxml (s : Str) : xmlReadText (lxEscapeText s) = some s := by
